@@ -444,6 +444,26 @@ pub fn panic_key(p: &str) -> String {
 }
 
 pub fn normalise_msg(msg: &str) -> String {
+    // the payload of an unwrap()/expect() on Err/None carries input-specific text: keep only the call
+    let msg = match msg.find(" value: ") {
+        Some(p) => &msg[..p + 6],
+        None => msg,
+    };
+    // identifiers (contain a digit or '_', or are ALL-CAPS words) are input-specific too
+    let msg: String = msg
+        .split(' ')
+        .map(|t| {
+            let core = t.trim_matches(|c: char| !c.is_alphanumeric() && c != '_');
+            let is_id = !core.is_empty() && (core.contains('_') || (core.chars().any(|c| c.is_ascii_digit()) && core.chars().any(|c| c.is_alphabetic())) || (core.len() >= 3 && core.chars().all(|c| c.is_uppercase() || c == '-')));
+            if is_id {
+                t.replace(core, "<id>")
+            } else {
+                t.to_string()
+            }
+        })
+        .collect::<Vec<_>>()
+        .join(" ");
+    let msg = msg.as_str();
     // digits -> N, quoted payloads -> "..", truncate
     let mut out = String::new();
     let mut in_q = false;
